@@ -94,7 +94,16 @@ def probe_empty_shape_frames(ez):
     post = ev[-1]["post"]
     frames_param = [p for p in post["grp"][0]["p"] if vlib.uncodes(p["n"]) == "FRAMES"][0]["v"][0]
     return ev[-1]["out"] == "ok" and len(post["frm"]) == 1 and frames_param == 1 and post["hdr"]["nframes"] == 0
-PROBES = {"scale_word": probe_scale_word, "gap_frames": probe_gap_frames, "empty_shape_frames": probe_empty_shape_frames}
+def probe_zero_point_rate(ez):
+    ops = [{"op": "New"}, _rate("ANALOG", F1000), {"op": "DeclAnalog", "n": vlib.codes("a1")},
+           {"op": "AddFrame", "idx": -1, "frame": {"p": [], "a": [[{"n": vlib.codes("a1"), "v": [s, 1, 1, 65]}] for s in range(1, 4)]}},
+           {"op": "Save", "path": "z.c3d"}, {"op": "Load", "o": 2, "path": "z.c3d"}]
+    ev = _run_ops(ez, ops)
+    if ev[-3]["out"] != "ok" or ev[-2]["out"] != "ok": return False
+    saved = ev[-2]["post"]["frm"]
+    if ev[-1]["out"] != "ok": return True
+    return ev[-1]["post"]["frm"] != saved
+PROBES = {"zero_point_rate": probe_zero_point_rate, "scale_word": probe_scale_word, "gap_frames": probe_gap_frames, "empty_shape_frames": probe_empty_shape_frames}
 
 def known_findings(pid, ez):
     """Re-observes every open ledger entry of this property on the real code; prints KNOWN-FINDING for those that still fail."""
@@ -155,6 +164,15 @@ def report_replay(pid, results, tier, t0, level="model_checking", extra_cov=None
         tcov, tviol = trace_leg(pid, report_replay.ez, tier)
         cov.update(tcov); nviol += tviol
         cov["traces_validated_against_impl"] = cases + tcov["random_histories_accepted"]
+    if trace and pid == "C05":
+        # the repository's own test suite, unedited, recorded through the guarded hooks and validated by EzTrace.tla
+        import gtesttrace
+        gcov, rej = gtesttrace.run()
+        cov.update(gcov); cov["traces_validated_against_impl"] = cov.get("traces_validated_against_impl", cases) + gcov["gtest_objects_accepted"]
+        for oid, desc in rej[:5]:
+            rp = vlib.save_replay(pid, "gtest:%s" % desc[:60], {"property": pid, "kind": "corpus", "what": "history of c3d object %s of the repository's test suite rejected by EzTrace.tla" % oid, "rejection": desc})
+            log("VIOLATION property=%s replay=%s" % (pid, rp)); nviol += 1
+            log("  the recorded history of c3d object %s of the repository's own tests is not a behaviour of the specification: %s" % (oid, desc))
     if "known_findings_observed" not in cov and report_replay.ez:
         cov["known_findings_observed"] = known_findings(pid, report_replay.ez)
     vlib.write_evidence(pid, tier, level, cov, time.time() - t0, len(viol) + (nviol - min(len(viol), 12)), assumptions)
@@ -222,7 +240,7 @@ def frames_configs(tier):
     (gaps) in-place edits and point columns over data sets with up to two empty frames created by one extension (index up to count+2);
     (columns) point and channel columns (two channel names) over the same data sets, without in-place edits"""
     if tier == "quick":
-        return [("MC_Frames/callers", {"NTags": 2, "NCallers": 1, "NChan": 1, "MaxFrames": 2, "IdxSlack": 2, "WithEdits": "TRUE"}, 2),
+        return [("MC_Frames/callers", {"NTags": 2, "NCallers": 1, "NChan": 1, "MaxFrames": 2, "IdxSlack": 2, "WithEdits": "TRUE"}, 8),
                 ("MC_Frames/gaps", {"NTags": 0, "NCallers": 0, "NChan": 1, "MaxFrames": 3, "IdxSlack": 3, "WithEdits": "TRUE"}, 5),
                 ("MC_Frames/columns", {"NTags": 0, "NCallers": 0, "NChan": 2, "MaxFrames": 3, "IdxSlack": 3, "WithEdits": "FALSE"}, 6)]
     return [("MC_Frames/callers", {"NTags": 2, "NCallers": 1, "NChan": 1, "MaxFrames": 3, "IdxSlack": 2, "WithEdits": "TRUE"}, 4),
